@@ -832,8 +832,12 @@ class Layout:
 
         if self.origin:
             # Calculated values to be used if replacement is needed
-            diff_horizontal = Size(90 - self.origin.x.value, UnitEnum.PERCENT)
-            diff_vertical = Size(95 - self.origin.y.value, UnitEnum.PERCENT)
+            # (never negative: an origin beyond the safe area leaves no room,
+            # and a negative size is rejected by pycaption's own readers)
+            diff_horizontal = Size(
+                max(90 - self.origin.x.value, 0), UnitEnum.PERCENT)
+            diff_vertical = Size(
+                max(95 - self.origin.y.value, 0), UnitEnum.PERCENT)
             if not self.extent:
                 # Extent is not set, use the calculated values
                 new_extent = Stretch(diff_horizontal, diff_vertical)
